@@ -33,7 +33,7 @@ class C11Disk(Scenario):
                                   (2, "sim_sq")]),
             "hseed": rng.below(1 << 16), "squeeze": rng.between(1, 3),
             "dir": rng.choice(seams.Scratch.DIRS), "cwd": rng.choice(seams.Scratch.DIRS),
-            "style": rng.choice(("abs", "rel", "path", "relpath", "dirlink", "home")),
+            "style": rng.choice(("abs", "rel", "path", "relpath", "dirlink", "home", "dirlinkpath")),
             "universe": rng.choice((4, 8, 16, 40)),
             "fault_free": rng.chance(1, 6),
             "real_kill_every": 4 if tier == "thorough" else 25,
@@ -53,7 +53,7 @@ class C11Disk(Scenario):
         if self.f is None:  # handle closed
             r = rng.below(10)
             if r < 7 or ff:
-                return {"op": "reopen", "style": rng.choice(("abs", "rel", "path", "relpath", "dirlink", "home")) if not ff else "abs"}
+                return {"op": "reopen", "style": rng.choice(("abs", "rel", "path", "relpath", "dirlink", "home", "dirlinkpath")) if not ff else "abs"}
             return {"op": "chdir", "dir": rng.choice(seams.Scratch.DIRS)}
         r = rng.below(100)
         k = rng.below(cfg["universe"])
@@ -74,7 +74,9 @@ class C11Disk(Scenario):
             return {"op": "chdir", "dir": rng.choice(seams.Scratch.DIRS)}
         if r < 91:
             return {"op": "export", "dir": rng.choice(seams.Scratch.DIRS),
-                    "style": rng.choice(("abs", "rel", "path", "relpath", "dirlink", "home"))}
+                    "style": rng.choice(("abs", "rel", "path", "relpath", "dirlink", "home", "dirlinkpath"))}
+        if r < 92:
+            return {"op": "export_self", "style": rng.choice(("abs", "rel", "path", "relpath", "dirlink", "home", "dirlinkpath"))}
         if r < 93:
             return {"op": "clear"}
         if r < 96:
@@ -376,6 +378,20 @@ class C11Disk(Scenario):
             return {"r": "ok"}
         if op == "decoy":
             return self.do_decoy(step)
+        if op == "export_self":
+            if self.f is None:
+                return "skip"
+            # documented: "Only exported if the filename is not the original filename" - whatever the spelling
+            spelled = self.scr.spell(self.cfg["dir"], FNAME, step["style"])
+            sig = {"phase": "export", "op": "export_self", "style": step["style"]}
+            try:
+                self.f.export(spelled)
+            except Exception as e:
+                raise Violation("export_failed", f"export({spelled!r}) - the filter's own file under another spelling - raised "
+                                                 f"{type(e).__name__}: {e}", sig)
+            ctx.fault("export_to_own_path")
+            self.check_after_return("export", sig)
+            return {"r": "ok"}
         if op == "clear":
             if self.f is None:
                 return "skip"
